@@ -713,7 +713,9 @@ class TrajectoryStore:
             )
 
         # As soon as we've added one trajectory to the store, we have fixed the
-        # data schema, which we check for each new trajectory.
+        # data schema, which we check for each new trajectory. (All checks
+        # are done before any state is changed, so that a rejected trajectory
+        # leaves the store exactly as it was.)
         if len(self._trajectories) > 0:
             proto = next(iter(self._trajectories.values()))
             if hash(trajectory) != hash(proto):
@@ -721,6 +723,18 @@ class TrajectoryStore:
                     'All trajectories in a TrajectoryStore must have the same '
                     'data fields'
                 )
+        if self.nc_linked and trajectory._fieldsets != set(self._nc.keys()):
+            # The trajectory cache may be empty (e.g., a store just opened in
+            # APPEND mode), in which case the files fix the schema.
+            raise ValueError(
+                'All trajectories in a TrajectoryStore must have the same '
+                'data fields'
+            )
+
+        # Required values must be present.
+        for name, field in trajectory._data_dictionary.items():
+            if field.required and trajectory._data.get(name) is None:
+                raise ValueError(f'Data field "{name}" is None in added trajectory')
 
         # Decide on whether or not we can index the store, checking consistency
         # on this decision with each trajectory we add.
